@@ -34,6 +34,24 @@ ATTR_KEYS = ["w", "color", "label", "weight", "m"]
 ATTR_VALS = [0, 1, 2, "r", "g", None, [1, 2], {"k": [1]}]
 
 
+# documented defaults of the keyword parameters (docstrings of xgi/core/hypergraph.py).  A generated call leaves some of
+# them out (op["omit"] names them; the op then carries the documented default, which is what the model performs): a
+# default that drifts from the documentation is a wrong effect of the plain call.
+DEFAULTS = {
+    "remove_node": {"strong": False, "remove_empty": True},
+    "remove_nodes_from": {"strong": False, "remove_empty": True},
+    "remove_node_from_edge": {"remove_empty": True},
+    "clear": {"remove_net_attr": True},
+    "merge_duplicate_edges": {"rename": "first", "merge_rule": "first"},
+    "cleanup": {"isolates": False, "singletons": False, "multiedges": False, "connected": True, "relabel": True},
+}
+
+
+def _kw(op, *names):
+    """the keyword arguments of the call: those named in op["omit"] are left to the library's defaults"""
+    return {k: op[k] for k in names if k not in op.get("omit", ())}
+
+
 class Gen:
     def __init__(self, rng, weights=None, malformed=0.04):
         self.rng = rng
@@ -96,6 +114,17 @@ class Gen:
     }
 
     def op(self):
+        op = self._op()
+        d = DEFAULTS.get(op["op"])
+        if d and self.rng.random() < 0.3:
+            omit = [k for k in d if self.rng.random() < 0.6]
+            for k in omit:
+                op[k] = d[k]
+            if omit:
+                op["omit"] = omit
+        return op
+
+    def _op(self):
         w = dict(self.OPS)
         w.update(self.weights)
         names = list(w)
@@ -285,9 +314,9 @@ def call(H, op):
     if name == "add_nodes_from":
         return H.add_nodes_from(_node_items(op["items"]), **_attrs(op["attr"]))
     if name == "remove_node":
-        return H.remove_node(dec_id(op["n"]), strong=op["strong"], remove_empty=op["remove_empty"])
+        return H.remove_node(dec_id(op["n"]), **_kw(op, "strong", "remove_empty"))
     if name == "remove_nodes_from":
-        return H.remove_nodes_from([dec_id(n) for n in op["ns"]], strong=op["strong"], remove_empty=op["remove_empty"])
+        return H.remove_nodes_from([dec_id(n) for n in op["ns"]], **_kw(op, "strong", "remove_empty"))
     if name == "add_edge":
         ms = [dec_id(m) for m in op["members_raw"]]
         op["members"] = [enc_id(m) for m in set(ms)]          # oracle: iteration order of set(members)
@@ -308,7 +337,7 @@ def call(H, op):
     if name == "remove_edges_from":
         return H.remove_edges_from([dec_id(e) for e in op["es"]])
     if name == "remove_node_from_edge":
-        return H.remove_node_from_edge(dec_id(op["e"]), dec_id(op["n"]), remove_empty=op["remove_empty"])
+        return H.remove_node_from_edge(dec_id(op["e"]), dec_id(op["n"]), **_kw(op, "remove_empty"))
     if name == "set_node_attributes":
         return _attr_call(H.set_node_attributes, op)
     if name == "set_edge_attributes":
@@ -342,14 +371,13 @@ def call(H, op):
         e = op["edges"]
         return H.update(edges=None if e is None else _ebunch(e["fmt"], e["items"]), nodes=_node_items(op["nodes"]))
     if name == "clear":
-        return H.clear(remove_net_attr=op["remove_net_attr"])
+        return H.clear(**_kw(op, "remove_net_attr"))
     if name == "clear_edges":
         return H.clear_edges()
     if name == "merge_duplicate_edges":
-        return H.merge_duplicate_edges(rename=op["rename"], merge_rule=op["merge_rule"], multiplicity=op.get("multiplicity"))
+        return H.merge_duplicate_edges(**_kw(op, "rename", "merge_rule"), multiplicity=op.get("multiplicity"))
     if name == "cleanup":
-        return H.cleanup(isolates=op["isolates"], singletons=op["singletons"], multiedges=op["multiedges"],
-                         connected=op["connected"], relabel=op["relabel"], in_place=True)
+        return H.cleanup(**_kw(op, "isolates", "singletons", "multiedges", "connected", "relabel"), in_place=True)
     if name == "relabel":
         return xgi.convert_labels_to_integers(H, label_attribute=op["label_attribute"], in_place=True)
     if name == "lcc_in_place":
@@ -362,6 +390,8 @@ def call(H, op):
 def outcome_of(exc, warned):
     if exc is None:
         return "warned" if warned else "ok"
+    if type(exc).__name__ == "CallTimeout":
+        return "err:hang"
     if isinstance(exc, (XGIError, IDNotFound)):
         return "err:lib"
     if isinstance(exc, TypeError):
@@ -372,43 +402,63 @@ def outcome_of(exc, warned):
 
 
 def apply_impl(H, op, callf=call):
+    """the call under the watchdog of dhg.guarded: a call that does not return ends with outcome "err:hang" (and so does
+    every later call of the history: the network of a call that never returned is garbage)"""
+    from .dhg import CallTimeout, guarded
     with warnings.catch_warnings(record=True) as w:
         warnings.simplefilter("always")
         exc = None
         try:
-            callf(H, op)
+            hung = H.__dict__.get("_verif_hung")
+            if hung is not None:
+                raise hung
+            guarded(callf)(H, op)
         except Exception as e:  # noqa
             exc = e
-    return outcome_of(exc, any(issubclass(x.category, UserWarning) for x in w)), exc
+            if isinstance(e, CallTimeout):
+                H.__dict__["_verif_hung"] = e
+        finally:
+            warned = any(issubclass(x.category, UserWarning) for x in w)
+            del w[:]
+    return outcome_of(exc, warned), exc
+
+
+def safe_id(x):
+    """enc_id, or the marker "$bad:<type>" for an object that is no ID of the model's domain (what a wrong edit of the
+    library may store as a node or edge: an iterator, a list, ...): the snapshot stays readable, the tie reports it"""
+    try:
+        return enc_id(x)
+    except (ValueError, TypeError):
+        return "$bad:" + type(x).__name__
 
 
 def sids(it):
-    return sorted((enc_id(x) for x in it), key=idkey)
+    return sorted((safe_id(x) for x in it), key=idkey)
 
 
 def snapshot(H, out="ok"):
     """canonical observation of an undirected network (public API; private key sets and counter when present)"""
     nodes, edges = list(H.nodes), list(H.edges)
-    s = {"out": out, "nodes": [enc_id(n) for n in nodes], "edges": [enc_id(e) for e in edges]}
+    s = {"out": out, "nodes": [safe_id(n) for n in nodes], "edges": [safe_id(e) for e in edges]}
     mem, memb, nattr, eattr = [], [], [], []
     for e in edges:
         try:
-            mem.append([enc_id(e), sids(H.edges.members(e))])
+            mem.append([safe_id(e), sids(H.edges.members(e))])
         except Exception as ex:  # noqa
-            mem.append([enc_id(e), "$err:" + type(ex).__name__])
+            mem.append([safe_id(e), "$err:" + type(ex).__name__])
         try:
-            eattr.append([enc_id(e), enc_attrs(H.edges[e])])
+            eattr.append([safe_id(e), enc_attrs(H.edges[e])])
         except Exception:  # noqa
-            eattr.append([enc_id(e), "$missing"])
+            eattr.append([safe_id(e), "$missing"])
     for n in nodes:
         try:
-            memb.append([enc_id(n), sids(H.nodes.memberships(n))])
+            memb.append([safe_id(n), sids(H.nodes.memberships(n))])
         except Exception as ex:  # noqa
-            memb.append([enc_id(n), "$err:" + type(ex).__name__])
+            memb.append([safe_id(n), "$err:" + type(ex).__name__])
         try:
-            nattr.append([enc_id(n), enc_attrs(H.nodes[n])])
+            nattr.append([safe_id(n), enc_attrs(H.nodes[n])])
         except Exception:  # noqa
-            nattr.append([enc_id(n), "$missing"])
+            nattr.append([safe_id(n), "$missing"])
     s.update(mem=mem, memb=memb, nattr=nattr, eattr=eattr)
     na, ea = getattr(H, "_node_attr", None), getattr(H, "_edge_attr", None)
     s["nattrK"] = sids(na.keys()) if na is not None else sids(nodes)
@@ -423,7 +473,7 @@ def snapshot(H, out="ok"):
 
 
 def to_request(op):
-    r = {k: v for k, v in op.items() if k not in ("members_raw", "seed", "weight", "share_sets")}
+    r = {k: v for k, v in op.items() if k not in ("members_raw", "seed", "weight", "share_sets", "omit")}
     return r
 
 
